@@ -23,7 +23,7 @@ type c05Params struct {
 	Ending   string      `json:"ending"`   // duration trigger-duration limit cancel-before cancel-setup cancel-eval cancel-body cancel-out setup-fail setup-panic
 	Blocking string      `json:"blocking"` // none gated forever
 	At       int         `json:"at"`       // evaluation m / body j / ms
-	Script   string      `json:"script"`   // "" | late-tick | slow-output
+	Script   string      `json:"script"`   // "" | late-tick | slow-output | tick-at-finish
 	Desc     string      `json:"desc"`
 	// ReleaseMS > 0 (ending duration, blocking gated): the held bodies are released this long after max-duration
 	ReleaseMS int `json:"release_ms,omitempty"`
@@ -339,7 +339,7 @@ func init() {
 				ns = 10
 			}
 			for i := 0; i < ns; i++ {
-				for j, s := range []string{"late-tick", "slow-output"} {
+				for j, s := range []string{"late-tick", "slow-output", "tick-at-finish"} {
 					mode := pick(r, "users", "constant", "custom")
 					p := c05Params{Script: s, Ending: "cancel-out", Blocking: "none"}
 					if mode == "users" {
@@ -350,7 +350,7 @@ func init() {
 					p.Spec.IgnoreDropped = true
 					p.Spec.Interactive = s == "slow-output" && i%2 == 0
 					p.Desc = fmt.Sprintf("script=%s mode=%s interactive=%v", s, mode, p.Spec.Interactive)
-					cse := core.MkCase("C05", "script", i*2+j, seed, p)
+					cse := core.MkCase("C05", "script", i*3+j, seed, p)
 					cse.Race = i%2 == 0
 					cse.Solo = true
 					cse.TimeoutMS = 45000
@@ -793,6 +793,40 @@ func c05Script(c *core.Case, o *core.Outcome) {
 				o.Violate(key, "output after Do returned: %q", ev.S)
 				return
 			}
+		}
+		for site, n := range hc.ReachedCounts() {
+			o.AddObs("hook:"+site, n)
+		}
+	case "tick-at-finish":
+		// the first progress report is held inside the result's read lock (hook result.progress.locked) while the run
+		// is ended: the run's end (a writer of the result) queues behind the report; once the report is let go both
+		// must get through and Do must return
+		hc := engine.NewHookCtl(c.Seed)
+		pk := hc.ParkNth("result.progress.locked", 1)
+		hc.Install()
+		defer hc.Uninstall()
+		done := make(chan *engine.Run, 1)
+		go func() { done <- engine.Execute(ctx, p.Spec, l, scenario, nil, nil) }()
+		select {
+		case <-pk.Arrived:
+		case <-time.After(15 * time.Second):
+			cancel()
+			<-done
+			o.Inconc("the progress report never reached the result")
+			return
+		}
+		cancel()
+		time.Sleep(300 * time.Millisecond)
+		pk.Release()
+		select {
+		case r := <-done:
+			if r.NewErr != nil {
+				o.Inconc("harness: %v", r.NewErr)
+				return
+			}
+		case <-time.After(20 * time.Second):
+			o.Violate("deadlock-result-mutex", "Do is wedged: the run ended while a progress report held the result's read lock, and the report never got through after it was let go (a second read lock taken behind the queued writer)")
+			return
 		}
 		for site, n := range hc.ReachedCounts() {
 			o.AddObs("hook:"+site, n)
